@@ -529,12 +529,18 @@ def variant_args(name, comps):
 
 # clones that fail AFTER the output has been opened: the promise "nothing is removed or renamed, no
 # other file is written" holds for them as well
-FAIL_MODES = ["fail-missing-seed", "fail-corrupt-chunk", "fail-corrupt-chunk-in-place"]
+FAIL_MODES = ["fail-missing-seed", "fail-corrupt-chunk", "fail-corrupt-chunk-in-place",
+              "fail-dangling-symlink", "fail-busy-executable"]
 
 
 def clone_cases(tier):
     variants = ["fixed"] if tier == "quick" else ["fixed", "rollsum", "buzhash"]
     cases = []
+    # verbosity must not change what is written where
+    for verbose in ("-v", "-vv"):
+        for mode in ("plain", "seed1", "in-place"):
+            cases.append({"kind": "clone", "mode": mode, "loc": LOCS[0], "verify": VERIFY[1], "style": STYLES[0],
+                          "variant": variants[0], "verbose": verbose})
     for variant in variants:
         for mode in FAIL_MODES:
             for loc in LOCS:
@@ -560,6 +566,9 @@ def compress_cases(tier, available=("none", "brotli", "zstd", "lzma")):
                 for style in STYLES:
                     cases.append({"kind": "compress", "input": inp, "chunker": chunker, "compression": comp,
                                   "style": style})
+        for verbose in ("-v", "-vv"):
+            cases.append({"kind": "compress", "input": inp, "chunker": "fixed", "compression": comps[0],
+                          "style": STYLES[0], "verbose": verbose})
         # the empty source: zero chunks, the temp file is created all the same
         for chunker in ("fixed", "rollsum"):
             cases.append({"kind": "compress", "input": inp, "chunker": chunker, "compression": comps[-1],
@@ -569,8 +578,8 @@ def compress_cases(tier, available=("none", "brotli", "zstd", "lzma")):
 
 def mode_key(case):
     if case["kind"] == "clone":
-        return ("clone", case["variant"], case["mode"], case["loc"], case["verify"])
-    return ("compress", case["input"], case["chunker"], case["compression"], bool(case.get("empty")))
+        return ("clone", case["variant"], case["mode"], case["loc"], case["verify"], case.get("verbose"))
+    return ("compress", case["input"], case["chunker"], case["compression"], bool(case.get("empty")), case.get("verbose"))
 
 
 # ------------------------------------------------------------------------------------------------
@@ -616,6 +625,17 @@ def run_clone_case(env_, case, case_dir, log_path):
         argv.append("-f")
         with open(out_abs, "wb") as f:
             f.write(mat["junk"])
+    busy = None
+    if mode == "fail-dangling-symlink":
+        # -f onto a symlink that points into a directory that does not exist: the open fails
+        argv.append("-f")
+        os.symlink(os.path.join(case_dir, "no-such-dir", "target.img"), out_abs)
+    if mode == "fail-busy-executable":
+        # -f onto a running executable: the open fails with ETXTBSY
+        argv.append("-f")
+        shutil.copy("/bin/sleep", out_abs)
+        os.chmod(out_abs, 0o755)
+        busy = subprocess.Popen([out_abs, "30"], stdin=subprocess.DEVNULL, stdout=subprocess.DEVNULL, stderr=subprocess.DEVNULL)
     if mode == "fail-missing-seed":
         argv += ["--seed", P(os.path.join("seeds", "no-such-seed.bin"))]
     if mode == "fail-corrupt-chunk-in-place":
@@ -659,11 +679,23 @@ def run_clone_case(env_, case, case_dir, log_path):
         argv.append(srv.url(name, "c16=" + os.path.basename(case_dir)))
     argv.append(P(out_rel))
 
+    if case.get("verbose"):
+        argv.insert(1, case["verbose"])
     before = snapshot(case_dir)
-    r = observed_run(argv, case_dir, log_path, stdin_data=stdin_data)
+    try:
+        r = observed_run(argv, case_dir, log_path, stdin_data=stdin_data)
+    finally:
+        if busy is not None:
+            busy.kill()
+            busy.wait()
     after = snapshot(case_dir)
     obs = r["obs"]
     out_real = os.path.realpath(out_abs)
+    if mode == "fail-dangling-symlink":
+        # the link itself is the output path: it must still be there, still a link, and nothing opened behind it
+        out_real = out_abs
+        if not os.path.islink(out_abs):
+            pass  # reported below through the snapshot diff / mutations
     ro_real = {os.path.realpath(p) for p in readonly}
     v = []
     facts = {"output_write_opens": 0, "readonly_opens": 0, "allowed_nonfile_writes": [], "failed_foreign_attempts": 0,
@@ -747,6 +779,8 @@ def run_compress_case(env_, case, case_dir, log_path):
     else:
         stdin_data = source
     argv.append(P(arch_rel))
+    if case.get("verbose"):
+        argv.insert(1, case["verbose"])
 
     before = snapshot(case_dir)
     r = observed_run(argv, case_dir, log_path, stdin_data=stdin_data)
